@@ -91,6 +91,18 @@ def _apply_rewrites(w):
 
 
 def normalize_word(w):
+    w = _normalize_once(w)
+    if REWRITES:
+        # cancellations may expose new rewrite sites (and vice versa): iterate to a fixpoint
+        for _ in range(50):
+            w2 = _normalize_once(w)
+            if w2 == w:
+                break
+            w = w2
+    return w
+
+
+def _normalize_once(w):
     w = list(w)
     if REWRITES:
         w = _apply_rewrites(w)
@@ -358,6 +370,18 @@ def trace(p: NC):
             tv = SReal(z3.Real("tr[" + word_str(cw) + "]"))
             total = total + v * tv
     return total
+
+
+def nc_syntactically_equal(p: NC, q: NC):
+    """Same words with syntactically identical coefficients (symbolic coefficients compared as z3 terms)."""
+    for w in p.words() | q.words():
+        a, b = p.t.get(w, Fraction(0)), q.t.get(w, Fraction(0))
+        if isinstance(a, Fraction) and isinstance(b, Fraction):
+            if a != b:
+                return False
+        elif not (isinstance(a, SReal) and isinstance(b, SReal) and a.z.eq(b.z)):
+            return False
+    return True
 
 
 def _syntactically_self_adjoint(p: NC):
